@@ -1,8 +1,10 @@
 From Coq Require Import Extraction ExtrOcamlBasic ZArith List.
-From LP Require Import Num C04_Model.
+From LP Require Import Num C04_Model C04_State.
 Extraction Language OCaml.
 Extraction "C04_m.ml" vec_of vfill vdot v_op_mul vcross vnorm vadd vsub vadd_assign vsub_assign vscale vdivs s_mul_v veq
   mat_of_entries mat_fill mat_diag identity mat_block m_at delete_row delete_column return_row return_column
   m_plus m_minus m_product_s m_product m_product_v m_division square symmetric antisymmetric diagonal
   transpose trace m_norm sub_matrix_int sub_matrix m_op_plus m_op_minus m_op_mul m_op_mul_v m_op_mul_s m_op_div
-  m_add_assign m_sub_assign s_mul_m v_mul_m m_eq outer row_mat col_mat wf_mat wf_vec Z.of_nat Z.to_nat.
+  m_add_assign m_sub_assign s_mul_m v_mul_m m_eq outer row_mat col_mat wf_mat wf_vec
+  v_resize v_assign v_set v_at v_copy v_assign_from v_zero v_default
+  m_resize m_assign m_set m_copy m_assign_from m_zero m_default Z.of_nat Z.to_nat.
